@@ -1057,14 +1057,41 @@ fn data_run(mat: &TlsMaterial, acc: &str, buf: usize, seed: u64) -> Vec<Value> {
         };
         let mut sizes = vec![1usize, 1000, 16383, 16384, 16385, 48 * 1024, 65536, 1 + rng.below(70000)];
         sizes.push(0);
-        for n in sizes {
+        for (ni, n) in sizes.into_iter().enumerate() {
             for dir in ["s2c", "c2s"] {
+                // every other size goes through write_vectored
+                let vectored = ni % 2 == 1 && n >= 3;
                 let payload = rng.bytes(n);
                 let (w, r): (&mut Box<dyn Rw>, &mut Box<dyn Rw>) = if dir == "s2c" { (&mut server, &mut client) } else { (&mut client, &mut server) };
                 let p2 = payload.clone();
                 let res = timeout(Duration::from_secs(60), async {
                     let wr = async {
-                        w.write_all(&p2).await.map_err(|e| format!("write: {e}"))?;
+                        if vectored {
+                            // the payload as three slices (head, body, tail) written with write_vectored; whatever the
+                            // stream reports as written is taken as written
+                            let cuts = [n / 10, n - n / 3];
+                            let mut done = 0usize;
+                            while done < n {
+                                let parts: Vec<&[u8]> = [&p2[..cuts[0]], &p2[cuts[0]..cuts[1]], &p2[cuts[1]..]]
+                                    .into_iter()
+                                    .scan(0usize, |off, sl| {
+                                        let start = *off;
+                                        *off += sl.len();
+                                        Some((start, sl))
+                                    })
+                                    .filter(|(start, sl)| start + sl.len() > done)
+                                    .map(|(start, sl)| if start >= done { sl } else { &sl[done - start..] })
+                                    .collect();
+                                let ios: Vec<std::io::IoSlice<'_>> = parts.iter().map(|sl| std::io::IoSlice::new(sl)).collect();
+                                let k = w.write_vectored(&ios).await.map_err(|e| format!("write_vectored: {e}"))?;
+                                if k == 0 {
+                                    return Err("write_vectored wrote 0 bytes".to_string());
+                                }
+                                done += k;
+                            }
+                        } else {
+                            w.write_all(&p2).await.map_err(|e| format!("write: {e}"))?;
+                        }
                         w.flush().await.map_err(|e| format!("flush: {e}"))?;
                         Ok::<(), String>(())
                     };
@@ -1081,7 +1108,7 @@ fn data_run(mat: &TlsMaterial, acc: &str, buf: usize, seed: u64) -> Vec<Value> {
                     Ok((w, r)) => (false, format!("{:?} / {:?}", w.err(), r.err().map(|e| e))),
                     Err(_) => (false, "flushed bytes never reached the peer (no progress)".to_string()),
                 };
-                out.push(json!({"ev": "data", "acc": acc, "buf": buf, "n": n, "dir": dir, "ok": ok, "detail": detail}));
+                out.push(json!({"ev": "data", "acc": acc, "buf": buf, "n": n, "dir": dir, "vectored": vectored, "ok": ok, "detail": detail}));
                 if !ok {
                     return out;
                 }
